@@ -189,7 +189,7 @@ def _numbers_nonneg(numbers):
 @contract("ecdsa.der.remove_object", props=["C11", "C10", "C09"], string=Bytes)
 def _(c):
     from pyvc.sym import llen
-    c.theories = {"list"}
+    c.theories = {"list", "b128"}
     c.raises(DER)
 
     def mk(ex):
@@ -201,7 +201,9 @@ def _(c):
     c.loop(0, invariant=[lambda numbers, body: And_(_numbers_nonneg(numbers), Or_(llen(numbers) >= 1, blen(body) >= 1)),
                          lambda string, body, length, lengthlength, _off: And_(1 + lengthlength <= _off, _off <= 1 + lengthlength + length,
                                                                                 1 + lengthlength + length <= blen(string),
-                                                                                beq(body, slc(string, _off, 1 + lengthlength + length)))],
+                                                                                beq(body, slc(string, _off, 1 + lengthlength + length))),
+                         # the octets parsed so far are exactly the concatenated canonical sub-identifiers of the numbers read so far
+                         lambda string, numbers, lengthlength, _off: beq(slc(string, 1 + lengthlength, _off), S.oid_body(numbers))],
            decreases=lambda body: blen(body),
            ghost={"_off": (lambda lengthlength: 1 + lengthlength, lambda _off, ll: _off + ll)})
     c.ensures(lambda string, result: And_(eq(at(string, 0), 0x06), blen(string) - blen(result[1]) >= 3,
@@ -213,6 +215,19 @@ def _(c):
         ll, C = _locals["lengthlength"], blen(string) - blen(result[1])
         return And_(C - 1 - ll >= 1, ll >= 1, beq(slc(string, 0, C), S.tlv(0x06, slc(string, 1 + ll, C))))
     c.ensures_witnessed(framed, "consumed-prefix-is-a-canonical-0x06-TLV-with-nonempty-body")
+
+    def canonical(ex, string, result, _locals):
+        # exists tail: arcs == first :: second :: tail  and  consumed == 06 || enc_len || subid(40 first + second) || oid_body(tail):
+        # the bytes consumed are the X.690 encoding of the returned arcs.  Witness: the list left after numbers.pop(0)
+        tail = getattr(ex, "last_list_tail", None)
+        first, second = _locals["first"], _locals["second"]
+        C = blen(string) - blen(result[1])
+        arcs = result[0]
+        if tail is None or not isinstance(arcs, sym.SIntList):
+            return False
+        return And_(SBool(arcs.t == sym.LCONS(T(first), sym.LCONS(T(second), tail.t))),
+                    beq(slc(string, 0, C), S.tlv(0x06, cat(S.subid(40 * first + second), S.oid_body(tail)))))
+    c.ensures_witnessed(canonical, "consumed-bytes-are-the-X.690-encoding-of-the-returned-arcs")
     c.assumed_ensures = [lambda string, result: beq(string, cat(SBytes(sym.ENCOID(result[0].t)), result[1]))]
 
 
